@@ -6,7 +6,10 @@ package main
 // after every run; observation equality (value, error text, probe trace)
 // between a solo run and repeated / concurrent runs of ONE shared tree on
 // fresh environments; canaries on process-global interpreter state; the race
-// detector in the concurrent phase.
+// detector in the concurrent phase. Phase hist (c14_hist.go): every program's
+// observation in a process with a history equals its observation alone in a
+// fresh child process. Phase iso (c14_iso.go): module copies and Env.Copy /
+// Env.DeepCopy copies never observe each other's bindings.
 
 import (
 	"fmt"
@@ -28,7 +31,7 @@ import (
 )
 
 // feature programs aimed at the per-node runtime data and process-global state
-var c14Features = []string{
+var c14BaseFeatures = []string{
 	"func f(a, b) { return a + b }\nrd(\"r\", f(1, 2))\nrd(\"r\", f(3, 4))",
 	"f = func(a) { return a * 2 }\nrd(\"r\", f(2))\nrd(\"r\", (func(a) { return a })(5))",
 	"x = 1\nx++\nx++\nx--\nrd(\"x\", x)\ny = 4094\ny++\ny++\nrd(\"y\", y)",
@@ -65,6 +68,30 @@ var c14Features = []string{
 	"m = {}\nfor i = 0; i < 12; i++ { m[toString(i)] = i }\nn = 0\nfor k in m { for j = 0; j < 4; j++ { m[k + \"-\" + toString(j)] = j }\n n++ }\nrd(\"n\", n)\nrd(\"len\", len(m))",
 	"delete(\"zz\")\nm = {\"a\": 1, \"b\": 2}\ndelete(m, \"a\")\nrd(\"m\", m)\nrd(\"k\", len(keys(m)))",
 }
+
+// c14PendingFix_convertMapCollision: on the unchanged tree convertMap (vm/vmConvertToXGo112.go)
+// ranges over the SOURCE map when it converts a script map to a typed Go map, so when two keys
+// collide after conversion (1 and 1.5 both become int64 1) the surviving entry follows Go's
+// randomised map iteration: `a = []map[int64]string{{1: "a", 1.5: "b", 1.25: "c"}}; a[0][1]`
+// yields "a", "b" or "c" from run to run although the script iterates no map. That violates
+// "always produces the same value" (see /tmp/strengthen/C14-genuine.md); until /repo is repaired
+// the programs below stay out of the feature list. Flip to false after the repair.
+const c14PendingFix_convertMapCollision = false
+
+// typed-map conversions whose keys collide after conversion
+var c14CollidingMapFeatures = []string{
+	"a = []map[int64]string{{1: \"a\", 1.5: \"b\", 1.25: \"c\"}}\nrd(\"e\", a[0][1] ?? \"refused\")",
+	"m = {1: \"a\", 1.5: \"b\", 1.75: \"c\", 1.125: \"d\"}\nx = []map[int64]string{m} ?? \"refused\"\nrd(\"x\", x)",
+	"m = {2.5: 1, 2.25: 2, 2: 3, 3: 4}\nx = [][]map[int32]float64{{m}} ?? \"refused\"\nrd(\"x\", x)",
+}
+
+var c14Features = func() []string {
+	f := append([]string(nil), c14BaseFeatures...)
+	if !c14PendingFix_convertMapCollision {
+		f = append(f, c14CollidingMapFeatures...)
+	}
+	return f
+}()
 
 type c14Obs struct {
 	trace   string
@@ -184,29 +211,106 @@ func c14Canary(c *wk.Case, when string) {
 	if o := ank.Exec(ank.NewCoreEnv(), "s = import(\"strings\"); [s.ToUpper(\"a\"), s.ToLower(\"B\"), s.TrimSpace(\" c \"), import(\"strconv\").Itoa(4)]"); ank.Render(o.Val) != "[]interface {}[\"A\" \"b\" \"c\" \"4\"]" {
 		c.Violation("canary:import-isolation", "after "+when+": in a fresh environment [ToUpper(\"a\"), ToLower(\"B\"), TrimSpace(\" c \"), Itoa(4)] through import yields "+ank.Render(o.Val)+" "+ank.ErrText(o.Err), when)
 	}
+	// script functions of every arity, plain and variadic: what a function literal builds must not
+	// depend on the shapes the process built before (the canary itself alternates the shapes)
+	for n := 0; n <= 7; n++ {
+		var ps, args, want []string
+		for i := 1; i <= n; i++ {
+			ps, args, want = append(ps, fmt.Sprintf("p%d", i)), append(args, fmt.Sprint(i)), append(want, fmt.Sprintf("int64(%d)", i))
+		}
+		src := fmt.Sprintf("(func(%s) { return [%s] })(%s)", strings.Join(ps, ", "), strings.Join(ps, ", "), strings.Join(args, ", "))
+		exp := "[]interface {}[" + strings.Join(want, " ") + "]"
+		if o := ank.Exec(e, src); ank.Render(o.Val) != exp || o.Err != nil {
+			c.Violation("canary:func-shapes", fmt.Sprintf("after %s: in a fresh environment `%s` yields %s %s, not %s", when, src, ank.Render(o.Val), ank.ErrText(o.Err), exp), when)
+			break
+		}
+		if n == 0 {
+			continue
+		}
+		// the last parameter takes the rest: two arguments more than fixed parameters
+		src = fmt.Sprintf("(func(%s...) { return [%s] })(%s)", strings.Join(ps, ", "), strings.Join(append(append([]string{}, ps[:n-1]...), "len("+ps[n-1]+")"), ", "), strings.Join(append(append([]string{}, args...), "0"), ", "))
+		exp = "[]interface {}[" + strings.Join(append(append([]string{}, want[:n-1]...), "int64(2)"), " ") + "]"
+		if o := ank.Exec(e, src); ank.Render(o.Val) != exp || o.Err != nil {
+			c.Violation("canary:func-shapes", fmt.Sprintf("after %s: in a fresh environment `%s` yields %s %s, not %s", when, src, ank.Render(o.Val), ank.ErrText(o.Err), exp), when)
+			break
+		}
+	}
+	// copies of an environment are environments of their own
+	{
+		t := env.NewEnv()
+		t.Define("k", int64(1))
+		t.Define("j", int64(2))
+		a, b := t.DeepCopy(), t.Copy()
+		a.Delete("k")
+		b.Define("j", int64(3))
+		b.Define("z", int64(4))
+		a.DefineType("Z", int64(0))
+		get := func(x *env.Env, n string) string {
+			v, err := x.Get(n)
+			if err != nil {
+				return "<undef>"
+			}
+			return ank.Render(v)
+		}
+		_, zerr := t.Type("Z")
+		if got := strings.Join([]string{get(t, "k"), get(b, "k"), get(t, "j"), get(a, "j"), get(a, "z"), get(t, "z")}, " "); got != "int64(1) int64(1) int64(2) int64(2) <undef> <undef>" || zerr == nil {
+			c.Violation("canary:env-copy-isolation", "after "+when+": t = {k: 1, j: 2}; a, b = t.DeepCopy(), t.Copy(); a.Delete(\"k\"); b.Define(\"j\", 3); b.Define(\"z\", 4); a.DefineType(\"Z\", ..): [t.k b.k t.j a.j a.z t.z] = "+got+fmt.Sprintf(", t.Type(\"Z\") error %v", zerr), when)
+		}
+		if o := ank.Exec(ank.NewCoreEnv(), "module m { a = 1\n func d() { delete(\"a\", true) } }\nn = m\nk = m\nm.d()\nk.a = 2\n[n.a, k.a, m.a ?? \"gone\"]"); ank.Render(o.Val) != "[]interface {}[int64(1) int64(2) \"gone\"]" {
+			c.Violation("canary:module-copy-isolation", "after "+when+": module m { a = 1; func d() { delete(\"a\", true) } }; n = m; k = m; m.d(); k.a = 2; [n.a, k.a, m.a ?? \"gone\"] yields "+ank.Render(o.Val)+" "+ank.ErrText(o.Err), when)
+		}
+	}
 }
 
 var c14PackagesBaseline, c14CanaryCount int
+
+// c14ConcPrograms is the number of shared-tree cases of phase conc; the cases
+// after them run one source at the same time in environments stamped from one template.
+func c14ConcPrograms(tier string) int {
+	if tier == "thorough" {
+		return 24000
+	}
+	return 600
+}
 
 func init() {
 	wk.Register(&wk.Engine{
 		ID: "C14",
 		Plan: func(tier string) fw.Plan {
-			nSeq, nConc := 3000, 600
+			nSeq, nHist, nIso := 3000, 400, 1500
 			if tier == "thorough" {
-				nSeq, nConc = 300000, 24000
+				nSeq, nHist, nIso = 300000, 20000, 150000
 			}
+			// conc: the shared-tree cases first, then the stamped-environment cases
+			nConc := c14ConcPrograms(tier) + c14ConcPrograms(tier)/6
 			return fw.Plan{
-				Level:       "exploration",
-				Rule:        "each program (hand-written feature programs aimed at per-node runtime data: named/anonymous calls, defer, ++/--, small-int and large-int arithmetic, every literal kind, maps that grow while they are ranged over, import with reassignment of imported members, modules, typed literals, make(type); PRNG-generated programs of all profiles; the repository's own goroutine-free scripts) is parsed ONCE; phase seq: the tree is dumped by reflection, run 3 times (feature programs 8 times) in fresh equal environments and dumped after each run; phase conc (race build): a solo run of a separately parsed tree is the reference, then 8 goroutines run the ONE shared tree at the same time on 8 fresh environments behind a barrier. Required: dumps byte-identical, every run's value/error text/probe trace equal to the solo run, canaries on the shared ++ literal, the small-int cache, the package tables and import isolation after each case, no race report. Non-trivial = parsed and produced at least one probe event or a non-nil value; distinct = distinct source text.",
-				Assumptions: []string{"corpus scripts that use import, goroutines, channels, map iteration, keys(), printing or time are outside the repeatability domain and are skipped", "a run cut by the execution watchdog is inconclusive, never compared"},
+				Level: "exploration",
+				Rule:  "each program (hand-written feature programs aimed at per-node runtime data: named/anonymous calls, defer, ++/--, small-int and large-int arithmetic, every literal kind, maps that grow while they are ranged over, import with reassignment of imported members, modules, typed literals, make(type); PRNG-generated programs of all profiles; the repository's own goroutine-free scripts) is parsed ONCE; phase seq: the tree is dumped by reflection, run 3 times (feature programs 8 times) in fresh equal environments and dumped after each run; phase conc (race build): a solo run of a separately parsed tree is the reference, then 8 goroutines run the ONE shared tree at the same time on 8 fresh environments behind a barrier. Required: dumps byte-identical, every run's value/error text/probe trace equal to the solo run, canaries on the shared ++ literal, the small-int cache, the package tables and import isolation after each case, no race report. Non-trivial = parsed and produced at least one probe event or a non-nil value; distinct = distinct source text. Phase hist (process-history independence): complementary sets of programs that drive one interpreter facility with different shapes (plain/variadic, named/anonymous script functions of every arity 0..7 and as Go callbacks; typed slice/map literals, channels and make() over every basic element type; make(type) binding one name to different types; struct types with different field lists; modules of one name with different contents; imports of different packages in different orders; host calls with different argument shapes; the feature programs above; PRNG-generated programs) — a case draws 2..6 members (one group, mixed, or with a generated program), orders them by the PRNG, sometimes repeats the first at the end, and runs them one after the other in the worker process, whose history also holds all earlier cases of its chunk and the canaries; each member's observation must equal its SOLO observation = the program run as the first and only program of a fresh child process. Phase iso (environments never observe each other's bindings): (modcopy) a script binds a module or an imported package to further names (n = m, var n = m, n, k = m, m, through a function result, a list element, a copy of a copy), changes ONE side (member assignment, module functions that set or delete with and without the global flag, also from a nested module, top-level assignment/definition/deletion/var/type definition/function and module definition) and records the view of every side before and after: the views of all other sides must not change; (envcopy) a template environment one or two scopes deep is copied with Env.DeepCopy / Env.Copy (also a copy of a copy), 1..4 changes are applied to one of them through the env API (Define, Set, Delete, DeleteGlobal, DefineType, DefineGlobal, DefineGlobalType, NewModule) or by a script handed to vm.Execute with it, and after every change the views of all OTHER environments (env API Get/Type of every watched name, and a script reading the same names) must be unchanged; (stamp) 2..4 environments stamped from one template (all before the first run, or one by one) run the same source of reads and binding changes: equal value and error text in every run, template unchanged. Phase conc additionally runs stamp cases with 6 environments at the same time in the race build. Canaries after each case also cover: script functions of every arity 0..7 plain and variadic, Env.Copy/DeepCopy isolation, module-copy isolation.",
+				Assumptions: []string{"corpus scripts that use import, goroutines, channels, map iteration, keys(), printing or time are outside the repeatability domain and are skipped", "a run cut by the execution watchdog is inconclusive, never compared",
+					"hist: the solo reference is taken in a child process of the same worker binary; a child that fails to deliver an observation makes the member inconclusive",
+					"iso compares bindings only: values reachable from both sides by reference (lists, maps, nested modules — shared by Copy/DeepCopy and by module assignment like any other value) are never mutated in place; a function is a closure over the environment it was defined in, so calling a template's or module's function through a copy counts as a change of the ORIGINAL; under Env.Copy the parent scopes stay shared by contract, so only the copied scope is changed",
+					"a script map converted to a typed map whose keys collide after conversion is nondeterministic on the unchanged tree (convertMap, reported in C14-genuine.md); such programs are written but held back by c14PendingFix_convertMapCollision"},
 				Phases: []fw.Phase{
 					{Name: "seq", Cases: nSeq, Chunk: 100, TimeoutS: 900},
+					{Name: "hist", Cases: nHist, Chunk: 50, TimeoutS: 900},
+					{Name: "iso", Cases: nIso, Chunk: 150, TimeoutS: 900},
 					{Name: "conc", Race: true, Cases: nConc, Chunk: 40, TimeoutS: 900, Jobs: 8},
 				},
 			}
 		},
 		Run: func(c *wk.Case) {
+			switch {
+			case c.Phase == "hist":
+				c14RunHist(c)
+				return
+			case c.Phase == "iso":
+				c14RunIso(c)
+				return
+			case c.Phase == "conc" && c.Index >= c14ConcPrograms(c.Tier):
+				// environments stamped from one template, run at the same time (race build)
+				c14IsoStamp(c, true)
+				return
+			}
 			src, kind, wd, ok := c14Program(c, c.Phase == "seq")
 			if !ok {
 				c.Excluded("program-outside-repeatability-domain")
